@@ -453,6 +453,23 @@ fn wide_cases(rng: &mut Rng, tier: &Tier, kind: &str, obs: &[&str]) -> Vec<Case>
             }
             cases.push(c);
         }
+        // monotone ramps and a triangle wave: the deques of max / min grow to the full width there (a random signal keeps
+        // them short), and everything that is done per window position happens at every position
+        if kind == "max" || kind == "min" {
+            for shape in 0..3 {
+                let mut c = vec![format!("new 1 {} N={}", kind, n)];
+                for i in 0..(2 * n + 40) as i64 {
+                    let x = match shape {
+                        0 => -i,
+                        1 => i,
+                        _ => { let p = (n as i64) + 3; let r = i % (2 * p); if r < p { r } else { 2 * p - r } }
+                    };
+                    c.push(format!("f 1 {}", x));
+                }
+                c.push("guts 1 time".into());
+                cases.push(c);
+            }
+        }
     }
     cases
 }
@@ -1351,6 +1368,34 @@ pub fn gen_reset(rng: &mut Rng, tier: &Tier) -> Vec<Case> {
         }
         cases.push(c);
     }
+    // integrate / differentiate at f32 with non-finite samples before the reset: whatever the accumulator held — an
+    // infinity, a NaN — a reset filter starts from zero / from nothing
+    for _ in 0..tier.n(40, 400) {
+        let kind = if rng.chance(2, 3) { "integrate_b" } else { "differentiate_b" };
+        let mut c = vec![format!("new 1 {} T=f32", kind)];
+        let special = |rng: &mut Rng| -> String {
+            let x: f32 = match rng.below(6) {
+                0 => f32::INFINITY,
+                1 => f32::NEG_INFINITY,
+                2 => f32::NAN,
+                3 => f32::MAX,
+                _ => rng.range(-12, 12) as f32,
+            };
+            format!("y{:08x}", if x.is_nan() { 0x7fc0_0000 } else { x.to_bits() })
+        };
+        for _ in 0..rng.range(1, 6) {
+            c.push(format!("f 1 {}", special(rng)));
+        }
+        c.push("reset 1".into());
+        c.push("fresh 1 2".into());
+        for _ in 0..rng.range(2, 6) {
+            let x = format!("y{:08x}", (rng.range(-12, 12) as f32).to_bits());
+            c.push(format!("f 1 {}", x));
+            c.push(format!("f 2 {}", x));
+            c.push("same 1 2 C12.reset-eq-fresh".into());
+        }
+        cases.push(c);
+    }
     // composite filters keep a copy of a parameter inside each inner filter; the state is public, so a filter may be
     // handed inner filters whose copy differs from its own configuration. A freshly constructed filter derives the
     // inner copies from its configuration, so a reset one must as well.
@@ -1499,6 +1544,27 @@ pub fn gen_copy(rng: &mut Rng, tier: &Tier) -> Vec<Case> {
             }
             cases.push(c);
         }
+    }
+    // windows holding incomparable samples (NaN) through every kind of copy: a copy is a copy whatever the samples are
+    for _ in 0..tier.n(60, 600) {
+        let n = *rng.pick(&[2usize, 3, 4, 5]);
+        let kind = *rng.pick(&["median", "median", "slopes out=21,22,23", "threshold thr=1 out=-7,11", "schmitt low=-1 high=2 out=-7,11"]);
+        let first = if kind == "median" { format!("median N={} T=f64", n) } else { format!("{} T=f64", kind) };
+        let mut c = vec![format!("new 1 {}", first)];
+        for _ in 0..rng.range(2, 3 * n as i64 + 3) {
+            c.push("clone 1 2".into());
+            c.push("gutsrt 1 3".into());
+            c.push("fresh 1 5".into());
+            c.push("clonefrom 5 1".into());
+            let x = if rng.chance(1, 3) { "nan".to_string() } else { rng.range(-4, 4).to_string() };
+            for id in [2, 3, 5, 1] {
+                c.push(format!("f {} {}", id, x));
+            }
+            c.push("same 1 2 C20.copy-continues".into());
+            c.push("same 1 3 C20.copy-continues".into());
+            c.push("same 1 5 C20.copy-continues".into());
+        }
+        cases.push(c);
     }
     // the generic filters at float types: a copy continues with EXACTLY the original's outputs — bit for bit, on samples
     // whose arithmetic rounds (whatever a filter's outputs depend on, a copy must carry all of it)
